@@ -332,6 +332,58 @@ func (c *Ctx) checkParseDispatch(rule string) {
 		return
 	}
 	tbl := c.caseTable(po, nil, func(p string) bool { return strings.HasSuffix(p, ".Operation") })
+	// the parser picked per case into a function variable and called once after the switch
+	{
+		var site *ssa.Call
+		picked := 0
+		okArgs := true
+		for _, t := range opTypes {
+			blk := tbl[`"`+t+`"`]
+			if blk == nil {
+				continue
+			}
+			for _, pc := range phiPickedCalls(blk) {
+				if fn := funcValueOf(pc.picked); fn != nil && fn == pf[t] {
+					picked++
+					site = pc.call
+					a := pc.call.Call.Args
+					if len(a) != 2 || c.Path(a[0], nil) != "$2" || c.Path(a[1], nil) != "$3" {
+						okArgs = false
+					}
+				}
+			}
+		}
+		if picked == 4 && len(tbl) == 4 && site != nil {
+			c.Check(rule, "ParseOperation:dispatch", okArgs, po.Pos(), "type constant -> Parse<Type>Operation(operationBuffer, batch) for exactly the four types (parser picked per case, called once)")
+			callReq, _, _ := c.Guard(po, nil, &GCheck{Name: "selected parser succeeded", NoDescend: true, MatchCall: func(c *Ctx, call *ssa.Call, env Env) bool { return call == site }}, nil)
+			c.Check(rule, "ParseOperation:parse-error-propagated", callReq, po.Pos(), "ParseOperation succeeds only when the selected per-type parser returned a nil error")
+			// every function the variable may hold is one of the four; "none picked" does not reach the call
+			known := true
+			hasNil := false
+			if phi, isPhi := site.Call.Value.(*ssa.Phi); isPhi {
+				for _, e := range phi.Edges {
+					if k, isK := e.(*ssa.Const); isK && k.IsNil() {
+						hasNil = true
+						continue
+					}
+					fn := funcValueOf(e)
+					hit := false
+					for _, t := range opTypes {
+						hit = hit || (fn != nil && fn == pf[t])
+					}
+					known = known && hit
+				}
+				if hasNil {
+					nilRefused, _, _ := c.Guard(po, nil, cmpReject("no parser picked: refused", token.EQL, pathIs(c.Path(phi, nil)), pathIs("nil")), func(in ssa.Instruction) bool { return in == ssa.Instruction(site) })
+					known = known && nilRefused
+				}
+			} else {
+				known = false
+			}
+			c.Check(rule, "ParseOperation:unknown-type-rejected", known, po.Pos(), "the parser variable holds one of the four per-type parsers; an operation type outside the four does not reach the call")
+			return
+		}
+	}
 	ok := len(tbl) == 4
 	var errVals []ssa.Value
 	for _, t := range opTypes {
@@ -459,7 +511,13 @@ func (c *Ctx) isComputedUsingRule(rule string) {
 		c.Unresolved(rule, "hashing.IsComputedUsingMultihashAlgorithms / GetMultihashCode")
 		return
 	}
-	c.CheckGuard(rule, "IsComputedUsing:decode-ok", icu, nil, callTo("GetMultihashCode(encoded)", gmc, pathIs("$0")))
+	// (the code read through GetMultihashCode, or taken from the multihash GetMultihash decodes — which is what
+	// GetMultihashCode itself does)
+	decodeOK := callTo("GetMultihashCode(encoded)", gmc, pathIs("$0"))
+	if gm := c.Fn("hashing", "GetMultihash"); gm != nil {
+		decodeOK = anyOf("GetMultihashCode(encoded) / GetMultihash(encoded)", decodeOK, callTo("GetMultihash(encoded)", gm, pathIs("$0")))
+	}
+	c.CheckGuard(rule, "IsComputedUsing:decode-ok", icu, nil, decodeOK)
 	// the same test written as slices.ContainsFunc(codes, func(c) bool { return code == uint64(c) }): the function's
 	// true result is that call's result
 	eqSearch := false
@@ -484,7 +542,8 @@ func (c *Ctx) isComputedUsingRule(rule string) {
 							continue
 						}
 						const want = "hashing.GetMultihashCode($0)#0"
-						if !byRef && c.Path(b, nil) == want {
+						const want2 = "hashing.GetMultihash($0)#0.Code"
+						if !byRef && (c.Path(b, nil) == want || c.Path(b, nil) == want2) {
 							eqSearch = true
 						}
 						if al, isAl := b.(*ssa.Alloc); isAl && byRef {
@@ -509,12 +568,23 @@ func (c *Ctx) isComputedUsingRule(rule string) {
 	if eqSearch {
 		c.Check(rule, "IsComputedUsing:code-equality", true, icu.Pos(), "the result is slices.ContainsFunc(codes, c => decoded code == uint64(c))")
 	} else {
+		// (the decoded code may come through a one-exit helper: it reads as what that helper hands back)
+		for _, g := range c.helpersOf(icu, 1) {
+			if len(successReturns(g)) == 1 {
+				if c.inlineFns == nil {
+					c.inlineFns = map[*ssa.Function]bool{}
+				}
+				c.inlineFns[g] = true
+			}
+		}
 		c.CheckGuard(rule, "IsComputedUsing:code-equality", icu, nil, &GCheck{Name: "decoded code == uint64(one of the supplied codes)", MatchCmp: func(c *Ctx, b *ssa.BinOp, env Env) (bool, bool) {
 			if b.Op != token.EQL && b.Op != token.NEQ {
 				return false, false
 			}
 			l, r := c.Path(b.X, env), c.Path(b.Y, env)
-			isCode := func(s string) bool { return s == "hashing.GetMultihashCode($0)#0" }
+			isCode := func(s string) bool {
+				return s == "hashing.GetMultihashCode($0)#0" || s == "hashing.GetMultihash($0)#0.Code"
+			}
 			isElem := func(s string) bool { return strings.HasPrefix(s, "conv<uint64>($1[") }
 			if (isCode(l) && isElem(r)) || (isCode(r) && isElem(l)) {
 				return true, b.Op == token.EQL
